@@ -269,6 +269,9 @@ class Walker(object):
             self.dnp -= 1
             if F == 0:
                 X = d // 1000
+                if d not in self.B:
+                    # an element that is in no table is an error wherever it stands, also where it would carry no data
+                    raise Unsupported('unknown element %06d' % d)
                 if not (1 <= X <= 9 or X == 31):
                     return True
             elif not self.grey221:
